@@ -5,6 +5,7 @@ from vivarium.core.process import Process
 from vmc import framework as fw
 from vmc import probes, worlds
 from vmc import structural as st
+from vmc import agents
 
 ID = 'C09'
 LEVEL = 'model_checking'
@@ -21,7 +22,12 @@ RULE = (
     'Oracle after every tick: value tree == reference hierarchy, node '
     'identities and values outside the operation\'s footprint unchanged, '
     'a moved subtree keeps node identities / process objects / relative '
-    'wiring. A case is one history.')
+    'wiring. A case is one history. Agents family (vmc.agents): the same '
+    'operations issued from inside the compartments (self-division with '
+    'copied or fresh processes, self-deletion, self-move, operations on '
+    'siblings); every emitted row is compared with the reference '
+    'hierarchy and process objects must stay where they are (or move '
+    'with their compartment).')
 ASSUMPTIONS = [
     'canonical-state merging keeps tree shape, keys and compartment kind; '
     'it drops values, which no operation precondition reads',
@@ -77,6 +83,9 @@ def snapshot(engine):
 
 
 def run_history(job, acc):
+    if job[0] == 'agents':
+        agents.judge(job[1:], acc, 'C09')
+        return
     init_i, history, issuer, kind, expect_reject = job
     init = INITS[init_i]
     case = {'init': init_i, 'history': history, 'issuer': issuer,
@@ -220,6 +229,9 @@ def jobs(ctx):
                     for k in m.t[c]:
                         out.append((init_i, h + (('delpath', c, k),),
                                     issuer, kind, False))
+    # operations issued from inside the compartments (vmc.agents)
+    out += [('agents',) + j for j in agents.jobs(
+        2 if ctx.quick else 3, lite=True)]
     return out
 
 
@@ -246,6 +258,9 @@ def replay(case):
     def tup(x):
         return tuple(tup(y) for y in x) if isinstance(x, (list, tuple)) \
             else x
-    run_history((case['init'], tup(case['history']), case['issuer'],
-                 case['kind'], case['reject']), acc)
+    if case.get('family') == 'agents':
+        agents.judge(tup(case['job']), acc, 'C09')
+    else:
+        run_history((case['init'], tup(case['history']), case['issuer'],
+                     case['kind'], case['reject']), acc)
     return [v for exs in acc.viol_examples.values() for v in exs]
